@@ -194,7 +194,8 @@ def mutation(draw, kind: str, info: dict, cur: Any):
         for c in dop["cases"]:
             used |= set(range(c["lo"], c["hi"] + 1))
         free = [k for k in range(0, 300) if k not in used][:3] + [-1, 1 << 40]
-        opts = [("mux-none-case", [None, content]), ("mux-unknown-case", ["no_such_case", content]),
+        # (None selects the default case; its content is not the selected regular case's content)
+        opts = [("mux-none-case", [None, {}]), ("mux-unknown-case", ["no_such_case", content]),
                 ("mux-arity-1", [cur[0]] if isinstance(cur, (list, tuple)) and cur else [1]),
                 ("mux-arity-3", list(cur) + [1] if isinstance(cur, (list, tuple)) else [1, 2, 3]),
                 ("mux-key-without-case", [pick(free), content]), ("mux-not-a-pair:int", 5), ("mux-not-a-pair:None", None),
